@@ -178,7 +178,15 @@ async def execute(gen, ops, w: SockWorld, run: Run, counters=None):
         log.add("API.call", name="send", serial=rec["serial"])
         H.HDR_SINK[0] = rec
         try:
-            await w.sock.send(msg, psock.RetryPolicy(max_retries=pol[0], max_lifetime=pol[1]))
+            policy = psock.RetryPolicy(max_retries=pol[0], max_lifetime=pol[1])
+            if rec.get("mode") == "hdr":
+                # the other public entry point: caller-supplied header
+                reg = H.registry(gen)
+                size = reg.get_encoder(msg.message_id).size(msg)
+                hdr = reg.header_factory.create_from_message(msg, size)
+                await w.sock.send_with_header(hdr, msg, policy)
+            else:
+                await w.sock.send(msg, policy)
         except asyncio.CancelledError:
             rec["outcome"] = "cancelled"
             raise
@@ -204,7 +212,7 @@ async def execute(gen, ops, w: SockWorld, run: Run, counters=None):
             rec = {"serial": (kind, n), "kind": kind, "policy": pol, "typ": typ, "data": data,
                    "outcome": "pending", "ret_seq": None, "mode": mode}
             run.sends.append(rec)
-            if mode == "inline":
+            if mode in ("inline", "hdr"):
                 await do_send(msg, rec, pol)
             else:
                 tasks.append(loop.create_task(do_send(msg, rec, pol)))
